@@ -432,7 +432,12 @@ func (t Table) Lookup(req *http.Request, trace string, pick picker, match matche
 		if target = t.lookup(h, req.URL.Path, trace, pick, match); target != nil {
 			if target.RedirectCode != 0 {
 				req.URL.Host = req.Host
-				target.BuildRedirectURL(req.URL) // build redirect url and cache in target
+				// the redirect url depends on the request: build it on a copy
+				// of the target so that concurrent requests for the same
+				// route do not overwrite each other's location
+				tc := *target
+				target = &tc
+				target.BuildRedirectURL(req.URL)
 				if target.RedirectURL.Scheme == req.Header.Get("X-Forwarded-Proto") &&
 					target.RedirectURL.Host == req.Host &&
 					target.RedirectURL.Path == req.URL.Path {
